@@ -39,7 +39,7 @@ CU = 'utils.courier_utils'
 
 
 def run(ctx: Ctx):
-  for r in (r1, r2, r3, r4, r5, r6, r7, r8, r11, r12, r13, r14):
+  for r in (r1, r2, r3, r4, r5, r6, r7, r8, r11, r12, r13, r14, r18, r19):
     ctx.guard(r)
   from mlmverif.props import c15
   from mlmverif.props import c05
@@ -882,12 +882,173 @@ def r14(ctx: Ctx):
   ctx.floor(rule, 2)
 
 
+def _handlers_returning_errors(repo) -> dict[str, tuple]:
+  """courier method name -> (handler FuncInfo, return node) for server handlers that RETURN an exception object."""
+  out = {}
+  mi = repo.module(CS)
+  for ci in mi.classes.values():
+    for fi in ci.methods.values():
+      for c in ast.walk(fi.node):
+        if not (isinstance(c, ast.Call) and isinstance(c.func, ast.Attribute) and c.func.attr == 'Bind' and len(c.args) == 2
+                and isinstance(c.args[0], ast.Constant) and isinstance(c.args[1], ast.Attribute)):
+          continue
+        h = repo.find_method(ci, c.args[1].attr) if is_self_attr(c.args[1]) else None
+        if h is None:
+          continue
+        handler_names = {x.name for x in ast.walk(h.node) if isinstance(x, ast.ExceptHandler) and x.name}
+        for r in ast.walk(h.node):
+          if not (isinstance(r, ast.Return) and r.value is not None):
+            continue
+          v = r.value
+          is_exc = (isinstance(v, ast.Call) and isinstance(v.func, ast.Name) and v.func.id.endswith(('Error', 'Exception'))) or (
+              isinstance(v, ast.Name) and v.id in handler_names)
+          if is_exc:
+            out[c.args[0].value] = (h, r)
+  return out
+
+
+def r18(ctx: Ctx):
+  rule = 'R-C06-18'
+  ctx.rule(rule, '"no lost work": some server handlers REFUSE a request by returning an exception object instead of raising'
+           ' it (init_generator answers TimeoutError while the worker is shutting down). Every client call of such a'
+           ' courier method binds the awaited answer and raises it when it is not None. A client that only awaits the'
+           ' call takes the refusal for success: the next batch request is answered from the worker\'s PREVIOUS,'
+           ' exhausted generator — the new shard is reported done without having run, its batches are never delivered'
+           ' and the old shard\'s state is merged twice, without any error')
+  repo = ctx.repo
+  table = _handlers_returning_errors(repo)
+  if 'init_generator' not in table:
+    raise AnalysisError(f'{rule}: init_generator no longer refuses by returning an exception (handlers found: {sorted(table)})')
+  n = 0
+  mi = repo.module(CU)
+  for ci in mi.classes.values():
+    for fi in ci.methods.values():
+      pm = None
+      for c in ast.walk(fi.node):
+        if not (isinstance(c, ast.Call) and (kw := kwarg(c, 'courier_method')) is not None and isinstance(kw, ast.Constant)
+                and kw.value in table and unparse(c.func) == 'self.call'):
+          continue
+        n += 1
+        pm = pm or parent_map(fi.node)
+        # the future: bound to a name, or awaited / .result()ed in place
+        fut_names = set()
+        par = pm.get(c)
+        if isinstance(par, ast.Assign):
+          fut_names = {t.id for t in par.targets if isinstance(t, ast.Name)}
+
+        def from_future(e):
+          for y in ast.walk(e):
+            if y is c or (isinstance(y, ast.Name) and y.id in fut_names):
+              return True
+          return False
+
+        answers = set()
+        for x in ast.walk(fi.node):
+          tgt, val = None, None
+          if isinstance(x, ast.NamedExpr):
+            tgt, val = x.target, x.value
+          elif isinstance(x, ast.Assign) and len(x.targets) == 1:
+            tgt, val = x.targets[0], x.value
+          if isinstance(tgt, ast.Name) and val is not None and from_future(val) and (
+              isinstance(val, ast.Await) or (isinstance(val, ast.Call) and isinstance(val.func, ast.Attribute)
+                                             and val.func.attr == 'result')):
+            answers.add(tgt.id)
+        raised = any(isinstance(r, ast.Raise) and isinstance(r.exc, ast.Name) and r.exc.id in answers
+                     for r in ast.walk(fi.node))
+        returned = any(isinstance(r, ast.Return) and r.value is not None and from_future(r.value) for r in ast.walk(fi.node))
+        h, ret = table[kw.value]
+        what = f'{fi.qualname}: the answer of {kw.value} is raised when it is an error'
+        if raised:
+          ctx.ok(rule, fi, what, c)
+        elif returned:
+          ctx.info(rule, fi, f'{fi.qualname}: hands the future of {kw.value} to its caller')
+        else:
+          ctx.fail(rule, fi, what,
+                   f'{fi.qualname} calls courier method {kw.value!r} and never raises its answer, but the handler'
+                   f' {h.qualname} refuses by RETURNING an error (`{unparse(ret)[:70]}`, line {ret.lineno}): the refusal is'
+                   ' taken for success, the following batch requests are answered from the worker\'s previous generator and'
+                   ' the shard is reported done without having run', node=c)
+  ctx.floor(rule, 1, n)
+
+
+def r19(ctx: Ctx):
+  rule = 'R-C06-19'
+  ctx.rule(rule, '"every task result is delivered ... no lost work": a scheduling loop keeps running while ANY of its work'
+           ' lists is non-empty. A work list is a local list from which the loop body takes (`pop`) and to which it puts'
+           ' back (`append`/`extend`: new work, retries of timed-out tasks). Each of them appears as a disjunct of the'
+           ' loop condition — a retry queued after the input is exhausted and nothing else is running would otherwise'
+           ' never be submitted: the shard\'s remaining batches and its state are lost without an error')
+  repo = ctx.repo
+  n = 0
+  seen_any = False
+  for mod in (CW, 'chainables.orchestrate'):
+    mi = repo.module(mod)
+    fns = list(mi.functions.values()) + [m_ for c in mi.classes.values() for m_ in c.methods.values()]
+    for fi in fns:
+      scopes = [fi.node] + [x for x in ast.walk(fi.node) if isinstance(x, (ast.FunctionDef, ast.AsyncFunctionDef)) and x is not fi.node]
+      for sc in scopes:
+        for lp in walk_no_nested(sc):
+          if not isinstance(lp, ast.While):
+            continue
+          takes, puts = set(), set()
+          for x in ast.walk(lp):
+            if isinstance(x, ast.Call) and isinstance(x.func, ast.Attribute) and isinstance(x.func.value, ast.Name):
+              if x.func.attr in ('pop', 'popleft'):
+                takes.add(x.func.value.id)
+              elif x.func.attr in ('append', 'extend', 'appendleft', 'insert'):
+                puts.add(x.func.value.id)
+          work = takes & puts
+          # an inner submission loop is bounded by something else (an idle worker); the scheduling loop is the
+          # OUTERMOST loop that works on the list
+          for outer in walk_no_nested(sc):
+            if isinstance(outer, ast.While) and outer is not lp and any(y is lp for y in ast.walk(outer)):
+              o_t = {x.func.value.id for x in ast.walk(outer) if isinstance(x, ast.Call) and isinstance(x.func, ast.Attribute)
+                     and isinstance(x.func.value, ast.Name) and x.func.attr in ('pop', 'popleft')}
+              o_p = {x.func.value.id for x in ast.walk(outer) if isinstance(x, ast.Call) and isinstance(x.func, ast.Attribute)
+                     and isinstance(x.func.value, ast.Name) and x.func.attr in ('append', 'extend', 'appendleft', 'insert')}
+              work -= (o_t & o_p)
+          if not work:
+            continue
+          seen_any = True
+          disj = lp.test.values if isinstance(lp.test, ast.BoolOp) and isinstance(lp.test.op, ast.Or) else [lp.test]
+          positive = {d.id for d in disj if isinstance(d, ast.Name)} | {
+              d.args[0].id for d in disj if isinstance(d, ast.Call) and unparse(d.func) in ('len', 'bool') and d.args
+              and isinstance(d.args[0], ast.Name)}
+          always = isinstance(lp.test, ast.Constant) and bool(lp.test.value)
+          for w in sorted(work):
+            n += 1
+            what = f'{fi.qualname}: the loop runs while work list `{w}` is non-empty'
+            if always or w in positive:
+              ctx.ok(rule, fi, what, lp.test)
+            else:
+              ctx.fail(rule, fi, what,
+                       f'`while {unparse(lp.test)}` (line {lp.lineno}) does not keep the loop alive for `{w}`, a list the'
+                       ' body takes work from and puts work back into (new tasks, retries): a retry that is queued when'
+                       ' the input is exhausted and nothing else is running is never submitted — its results are lost'
+                       ' and no error is raised', node=lp.test)
+  if not seen_any:
+    raise AnalysisError(f'{rule}: no scheduling loop with a work list found (WorkerPool.iterate has one)')
+  ctx.floor(rule, 1, n)
+
+
 from mlmverif.selfcheck import B, OK  # noqa: E402
 
 _W = 'chainables/courier_worker.py'
 _O = 'chainables/orchestrate.py'
 _U = 'utils/courier_utils.py'
 VARIANTS = [
+    B('iterate-loop-forgets-queued-retries', _W,
+      '      while not exhausted or tasks or running_tasks:', '      while not exhausted or running_tasks:', 'R-C06-19'),
+    B('as-completed-loop-forgets-queued-retries', _O,
+      '    while not exhausted or tasks or running_tasks:', '    while not exhausted or running_tasks:', 'R-C06-19'),
+    OK('iterate-loop-condition-reordered', _W,
+       '      while not exhausted or tasks or running_tasks:', '      while tasks or running_tasks or not exhausted:'),
+    B('init-answer-not-raised', _U,
+      "      init_state = self.call(\n          *task.args, courier_method='init_generator', **task.kwargs\n      )\n      if (init_state := await asyncio.wrap_future(init_state)) is not None:\n        raise init_state\n",
+      "      await asyncio.wrap_future(\n          self.call(*task.args, courier_method='init_generator', **task.kwargs)\n      )\n", 'R-C06-18'),
+    OK('init-answer-raised-through-two-names', _U,
+       "      if (init_state := await asyncio.wrap_future(init_state)) is not None:\n        raise init_state\n",
+       "      answer = await asyncio.wrap_future(init_state)\n      if answer is not None:\n        raise answer\n"),
     B('owned-worker-not-checked-alive', _W,
       '      if worker.is_locked(self):\n        if worker.has_capacity and worker.is_alive:\n          return worker',
       '      if worker.is_locked(self):\n        if worker.has_capacity:\n          return worker', 'R-C06-14'),
